@@ -53,7 +53,9 @@ def c12(tier, rep):
     _rows(rep, 6 if tier == "quick" else 8, (124, 92, 110, 32, 120), (32, 32), "ascii", ("count", "text", "col", "ast", "exception"))
     _rows(rep, 5 if tier == "quick" else 7, (124, 92, 110, 9, 128512), (9,), "tab_nonbmp", ("count", "text", "col", "ast", "exception"))
     _rows(rep, 4 if tier == "quick" else 6, (124, 92, 110, 12288, 233), (160,), "exotic_blanks", ("count", "text", "col", "ast", "exception"))
-    E.menu(rep, M.TABLES, 4 if tier == "quick" else 5, max_errs=3, invariants=["Inv_C12"], label="tables")
+    E.menu(rep, M.TABLES, 4, max_errs=3, invariants=["Inv_C12"], label="tables")
+    if tier == "thorough":
+        E.menu(rep, M.TABLES[:12], 5, max_errs=3, invariants=["Inv_C12"], label="tables-deep")     # (TLC refuses sets of more than 10^6 initial choices: 12^5)
     # ragged tables of up to 4 rows with 1, 2 and 3 cells: data table after a step, examples table after its header line
     E.menu(rep, [M.TABLES[i] for i in (0, 1, 2, 3, 4, 5, 7, 12, 13, 14, 15)], 4 if tier == "thorough" else 3, max_errs=3, invariants=["Inv_C12"], label="ragged-data", prefix=[1, 2, 3])
     E.menu(rep, [M.TABLES[i] for i in (0, 1, 2, 3, 4, 5, 7, 12, 14)], 3 if tier == "quick" else 4, max_errs=3, invariants=["Inv_C12"], label="ragged-examples", prefix=[1, 2, 3, 4])
